@@ -32,6 +32,10 @@ func (p *smsSent) find(code, number string) *smsSent {
 type monC02 struct {
 	last     []*smsSent      // per browser: latest code sent on behalf of that browser's session
 	spentRec map[string]bool // recovery codes the monitor saw complete a login (storage is not trusted to have consumed them)
+	// codes must not repeat across phones: a code "obtained for another phone" that equals the victim's completes the victim's login
+	allSMS       []harness.SMS
+	collisions   int // pairs of equal codes texted to different numbers in this history (chance: 1e-6 per pair)
+	foreignEqual int // logins completed with a code that had also been texted to another number
 }
 
 func (c *monC02) Init(m *Machine) {
@@ -61,6 +65,15 @@ func (c *monC02) After(m *Machine, s *Step) *Violation {
 	op, r := s.Op, s.Resp
 	b := op.B % len(m.W.Jars)
 	prevSMS := c.last[b]
+	for _, sm := range r.SMS {
+		for _, old := range c.allSMS {
+			if old.Code == sm.Code && old.Number != sm.Number && sm.Code != "" {
+				c.collisions++
+				m.flag("sms-code-repeats-across-phones")
+			}
+		}
+		c.allSMS = append(c.allSMS, sm)
+	}
 	if n := len(r.SMS); n > 0 {
 		c.last[b] = &smsSent{code: r.SMS[n-1].Code, number: r.SMS[n-1].Number}
 		if r.Fired != "" {
@@ -117,6 +130,16 @@ func (c *monC02) After(m *Machine, s *Step) *Violation {
 		for p := prevSMS; p != nil; p = p.alt {
 			if !p.consumed && p.code == s.Secret && p.number == pre.SMSPhone {
 				p.consumed = true
+				for _, other := range c.allSMS {
+					if other.Code == s.Secret && other.Number != pre.SMSPhone {
+						c.foreignEqual++
+					}
+				}
+				if c.foreignEqual >= 1 && c.collisions >= 2 {
+					// one coincidence happens once in a million pairs; a login completed with a code that another phone
+					// received too, in a history where codes repeat across phones again and again, is no coincidence
+					return violation("C02", "sms-codes-repeat-across-phones", "sms validate logged in %q with code %q, which had also been texted to another number; %d pairs of equal codes went to different phones in this history", after, s.Secret, c.collisions)
+				}
 				return nil
 			}
 		}
@@ -126,7 +149,6 @@ func (c *monC02) After(m *Machine, s *Step) *Violation {
 		}
 		return violation("C02", "completed-with-foreign-code:sms:code", "sms validate logged in %q (registered number %q) with code %q; the latest code sent for this browser: %s", after, pre.SMSPhone, s.Secret, got)
 	}
-	return nil
 }
 
 func (c *monC02) End(m *Machine) *Violation { return nil }
